@@ -1,7 +1,7 @@
 (* One entry point for the OCaml runner: op name and byte-string arguments
    in, (result bytes, tag text) out.  All structure is decoded here, in Coq. *)
 From Coq Require Import NArith ZArith List Bool String.
-From GJ Require Import Base.Bytes Base.Show Model.Int Model.StrEnc Model.StrDec Model.Compact Model.Iface Model.Path Model.KeyBitmap Spec.Json Gen.Resets Model.Mem Base.TypeAddrBase Gen.TypeAddr Model.TypeCache Model.Stream Model.StreamInst Model.Enc Model.EncIndent Gen.Query Model.Query Model.Decode Model.EncTyped Model.Skip Model.PathEval Model.PathTags Gen.SliceShape Model.SlicePool Model.FieldRes Model.Cycle Gen.Tables Model.Layout Model.EncColor.
+From GJ Require Import Base.Bytes Base.Show Model.Int Model.StrEnc Model.StrDec Model.Compact Model.Iface Model.Path Model.KeyBitmap Spec.Json Gen.Resets Model.Mem Base.TypeAddrBase Gen.TypeAddr Model.TypeCache Model.Stream Model.StreamInst Model.Enc Model.EncIndent Gen.Query Model.Query Model.Decode Model.EncTyped Model.Skip Model.PathEval Model.PathTags Gen.SliceShape Model.SlicePool Model.FieldRes Model.Cycle Gen.Tables Model.Layout Model.EncColor Model.Base64.
 Import ListNotations.
 Open Scope N_scope.
 Open Scope string_scope.
@@ -279,4 +279,9 @@ Definition dispatch (op : list N) (args : list (list N)) : list N * list N :=
      | Some (t, []), Some (v, []) => marshal_typed t v
      | _, _ => str "unparsed"
      end, [])
+  else if list_eqb op (str "c04.b64enc") then
+    (b64enc (arg 0 args), [])
+  else if list_eqb op (str "c04.b64dec") then
+    (* what Unmarshal into []byte stores for the string with these contents: O<bytes> or E *)
+    (match b64dec (arg 0 args) with Some bs => 79 :: bs | None => [69] end, [])
   else (str "no-model", []).
